@@ -465,6 +465,58 @@ func Run(tier string, seed int64, outDir string) *common.Meta {
 			}
 		}
 	}
+	// the same on a directed target package holding every receiver/operand type variant of each gated rule:
+	// a recommendation observed at version V must exist in V (oracle only; which variant a rule covers is
+	// the rule author's choice, so no firing pattern is demanded)
+	{
+		tdir := "/verif/corpus/c15/targets"
+		fset, pkgs, err := load.Packages(tdir, append(env, "GOFLAGS=-mod=mod"), ".")
+		if err != nil || len(pkgs) == 0 {
+			meta.Notes = append(meta.Notes, fmt.Sprintf("corpus/c15/targets not loaded: %v", err))
+		} else {
+			names := map[string]bool{"octalLiteral": true}
+			for _, g := range groups {
+				names[g] = true
+			}
+			for _, vs := range versions {
+				V := parseV(vs)
+				if V.maj == 0 {
+					continue
+				}
+				ctx := load.NewContext(fset)
+				ctx.SetGoVersion(vs)
+				cs, err := load.Checkers(ctx, names)
+				common.Must(err)
+				for _, pkg := range pkgs {
+					load.CheckPackage(ctx, cs, pkg, func(full string, c *linter.Checker, ws []linter.Warning) {
+						for _, w := range ws {
+							evals++
+							for api := range gated[c.Info.Name] {
+								needle := strings.TrimPrefix(api, ".")
+								if api == "0o-literal" {
+									needle = "0o"
+								}
+								if !strings.Contains(w.Text, needle) {
+									continue
+								}
+								since, ok := funcs[api]
+								if !ok {
+									since, ok = methods[needle]
+								}
+								if api == "0o-literal" {
+									since, ok = version{1, 13}, true
+								}
+								if ok && !since.le(V) {
+									meta.Fail("C15/"+c.Info.Name+"/future-api:"+api, fmt.Sprintf("with -go=%s checker %s recommends %s (Go %s) at %s: %s", vs, c.Info.Name, api, since, fset.Position(w.Pos), w.Text),
+										map[string]string{"version": vs, "file": full, "position": fset.Position(w.Pos).String(), "text": w.Text})
+								}
+							}
+						}
+					})
+				}
+			}
+		}
+	}
 	meta.Distribution["fire_counts"] = fireCount
 	common.WriteFile(filepath.Join(outDir, "cases_c15_gate.v"), hdr+
 		`Definition fires (g api : string) (v : version) : bool :=
